@@ -17,7 +17,7 @@ RULE = ("extra-data trajectories of random shots (zeroed flat fire, arcing 5-40 
         "outside the target")
 MUST_OBSERVE = ["ranges_given_as_plain_numbers", "canted_shots", "cases_under_other_preferred_units", "danger_spaces", "target_on_rising_branch", "target_on_falling_branch", "inclined_sight_line",
                 "bound_is_interior_row", "bound_is_end_row", "monotonic_pairs", "beyond_rejected", "plain_rejected", "explicit_look_angle_argument", "shot_reaimed_after_fire",
-                "same_numbers_after_unit_switch", "plain_number_after_equal_raw_quantity"]
+                "same_numbers_after_unit_switch", "plain_number_after_equal_raw_quantity", "edge_hugging_heights"]
 ASSUMPTIONS = ["'drop' is the row's drop relative to the sight line (target_drop), as in the reported DangerSpace rows"]
 DIST = si.DIMENSIONS["Distance"]
 
@@ -215,6 +215,16 @@ def check_case(ctx, case):
                                   dict(case, at_range_ft=q_ft, height_ft=h_ft))
             prev = res
     session_clause(ctx, hit, case, last_ft)
+    # target heights that hug a row: twice the drop difference between the target row and some other row, a hair more / less -
+    # 'at least half the target height away' and 'within half the target height' are exact comparisons
+    for fa, fj, f in case.get("edge_hugging") or []:
+        ia, j = int(fa * (len(rows) - 1)), int(fj * (len(rows) - 1))
+        gap = abs(rows[j].target_drop.raw_value - rows[ia].target_drop.raw_value)
+        if ia == j or gap <= 0:
+            continue
+        at_q, h_q = Distance.Inch(rows[ia].distance.raw_value), Distance.Inch(2.0 * gap * f)
+        ask(ctx, hit, case, at_q, h_q, at_q.raw_value, h_q.raw_value, "edge-hugging")
+        ctx.count("edge_hugging_heights")
     # beyond the computed trajectory
     for extra in (1e-6, 1.0, 1000.0):
         try:
@@ -268,7 +278,10 @@ def gen_case(rng):
         session = {"numbers": [rng.choice([50, 120, 200.0, round(rng.uniform(20, 0.3 * range_ft), 1)]), rng.choice([1, 0.5, 2.5, round(rng.uniform(0.2, 8), 2)])],
                    "units": rng.sample(["Yard", "Meter", "Foot", "Inch", "Centimeter"], 3), "frac": round(rng.uniform(0.05, 0.9), 3),
                    "h_in": rng.choice([6, 20, 40])}
+    edge = [[round(rng.random(), 4), round(rng.random(), 4), rng.choice([1 - 4e-7, 1 - 1e-9, 1.0, 1 + 1e-9, 1 + 4e-7, 1 - 3e-5])]
+            for _ in range(6)] if rng.random() < 0.5 else None
     return {"shot": s, "zero_ft": zero_ft, "range_ft": range_ft, "step_ft": step, "queries": queries, "prefs": prefs, "session": session,
+            "edge_hugging": edge,
             "bare_at_range": rng.random() < 0.3,
             "look_arg_deg": rng.choice([None, None, 0.0, round(rng.uniform(-30, 30), 1)]),
             "reaim_deg": rng.choice([None, None, None, round(rng.uniform(-20, 20), 1)])}
